@@ -13,13 +13,18 @@ def record(ck, nfiles, nprog, tag='sys', mode=None, seedoff=0):
 
 
 def validate(ck, files):
-    return ck.validate_traces('SysTrace', 'Trace_Sys.cfg', files, timeout=3000)
+    # (a DMA transfer is one recursion level per element: give the worker a deep stack)
+    return ck.validate_traces('SysTrace', 'Trace_Sys.cfg', files, timeout=3000, jvm=['-Xss64m'])
 
 
 SYS_ASSUMPTIONS = [
-    'System.tla composes the frozen TLA+ instruction semantics with TimerOps, the ICU, both audio ports (Btdmp) and both '
-    'mailbox blocks (Apbp) as teakra.cpp wires them, plus the host API between slices; MMIO '
-    'registers of peripherals not modelled there make the specification decline a trace rather than guess',
+    'System.tla composes the frozen TLA+ instruction semantics with TimerOps, the ICU, the MIU registers, both audio ports '
+    '(Btdmp), both mailbox blocks (Apbp), the DMA engine and the AHB bridge (operators of Dma.tla / Ahbm.tla; external '
+    'memory = the recorder\'s callbacks, every external access compared in order) as teakra.cpp wires them, plus the host '
+    'API between slices; every offset mmio.cpp binds is modelled, everything else is a plain storage cell',
+    'register effects are applied after the core part of the cycle; a DMA transfer whose range is also touched later in '
+    'the same cycle (return address pushed by an interrupt entered in that cycle) is declined (outcome dma-grain), not '
+    'guessed; DSP-side DMA cursors outside the array are the known finding oob:dma_cursor (outcome oob)',
     'guest programs come from templates (interrupt handlers, timer/ICU programming, idle and counting loops, calls, '
-    'hardware loops, context switches, mailbox echo/poll/mask loops, audio queue feeding; the audio transmit period, which '
+    'hardware loops, context switches, mailbox echo/poll/mask loops, audio queue feeding, DMA/AHBM programming (mode dma); the audio transmit period, which '
     'has no register, is shortened at construction) with random parameters; TLC, CommunityModules and g++ are trusted']
